@@ -568,3 +568,145 @@ def check_column_helpers(ctx):
                       'and trains the surrogate on mislabelled columns')
 def c11_h(ctx):
     check_column_helpers(ctx)
+
+
+def _phi_alts(t):
+    return list(t[1]) if t[0] == 'phi' else [t]
+
+
+@obligation('C11-i', 'T14 T8', 'evaluate_gradient is the derivative of the evaluate of the same '
+            'class (symbolically for the closed-form rules)', floor=5,
+            necessary='the optimiser and the acquisition sampler follow the gradient: a gradient '
+                      'of another function sends them to points that do not optimise the '
+                      'acquisition rule')
+def c11_i(ctx):
+    from .. import symdiff as sd
+    from ..ratfun import Rat, Unsupported
+    sd.selfcheck()
+    base = ctx.cls(ACQ)
+    classes = [c for c in base.all_subclasses()]
+    n_sym = 0
+    for c in classes:
+        ev = c.lookup('evaluate')
+        gr = c.lookup('evaluate_gradient')
+        if ev is None or gr is None:
+            continue
+        ev_abstract = ev.cls is base
+        gr_abstract = gr.cls is base
+        if ev_abstract and gr_abstract:
+            continue
+        # (1) pairing: the gradient in force is defined by the class that defines evaluate, or
+        #     below it
+        ok = (not gr_abstract) and (ev_abstract or gr.cls is ev.cls or
+                                    gr.cls.is_subclass_of(ev.cls))
+        ctx.check(ok, c.qname, 'gradient defined with (or below) the evaluate it differentiates',
+                  '{}.evaluate / {}.evaluate_gradient'.format(ev.cls.name, gr.cls.name),
+                  '{c}.evaluate comes from {e} but {c}.evaluate_gradient from {g}: the gradient '
+                  'belongs to another acquisition function'.format(
+                      c=c.name, e=ev.cls.name, g=gr.cls.name), fn=gr, node=gr.node)
+        if gr.cls is not c and ev.cls is not c:
+            continue     # inherited pair, decided at the defining class
+        if gr.cls is not c:
+            continue
+        exg = ctx.ex(gr)
+        rets_g = returns(gr)
+        # (2a) numerical derivative of the class's own evaluate
+        num = [r for r in rets_g if match(exg.term(r.value),
+                                          pattern('numgrad(self.evaluate, *_)')) is not None or
+               (exg.term(r.value)[0] == 'call' and exg.term(r.value)[1][0] == 'global' and
+                exg.term(r.value)[1][1].endswith('.numgrad') and exg.term(r.value)[2] and
+                exg.term(r.value)[2][0] == pattern_term('self.evaluate'))]
+        if num and len(num) == len(rets_g):
+            x_ok = all(exg.term(r.value)[2][1] == ('param', gr.params[1]) for r in num
+                       if len(exg.term(r.value)[2]) > 1)
+            ctx.check(x_ok, gr, 'numerical derivative of self.evaluate at the query point',
+                      'numgrad(self.evaluate, x)', 'the numerical gradient is not taken at the '
+                      'query point', fn=gr, node=num[0])
+            continue
+        if ev.cls is not c and not gr.cls.is_subclass_of(ev.cls):
+            continue
+        # (2b) symbolic derivative
+        exe = ctx.ex(ev)
+        rets_e = returns(ev)
+        if len(rets_e) != 1 or len(rets_g) != 1:
+            ctx.undecided('{}: expected single returns'.format(c.name))
+        alg = sd.Algebra()
+        mean = alg.base('mean', 'grad_mean')
+        var = alg.base('var', 'grad_var')
+        prior = alg.base_logderiv('prior', 'dlogprior')
+        cost = alg.base('cost', 'dcost')
+        xe, xg = ('param', ev.params[1]), ('param', gr.params[1])
+        predict_calls = set()
+
+        def leaf(t, xs=(xe, xg)):
+            if t[0] == 'item' and t[1][0] == 'call' and t[1][1][0] == 'attr' and \
+                    t[1][1][1] == pattern_term('self.model') and t[1][2] and t[1][2][0] in xs:
+                meth = t[1][1][2]
+                if meth == 'predict' and t[2] in (0, 1):
+                    predict_calls.add(t[1][3])
+                    return (mean, var)[t[2]]
+                if meth == 'predictive_gradients' and t[2] in (0, 1):
+                    return (Rat.sym('grad_mean'), Rat.sym('grad_var'))[t[2]]
+            if t[0] == 'call' and t[1][0] == 'attr' and t[2] and t[2][0] in xs:
+                owner, meth = t[1][1], t[1][2]
+                if owner == pattern_term('self.prior') and meth == 'pdf':
+                    return prior
+                if owner == pattern_term('self.prior') and meth == 'gradient_logpdf':
+                    return Rat.sym('dlogprior')
+                if owner == pattern_term('self.additive_cost') and meth == 'evaluate':
+                    return cost
+                if owner == pattern_term('self.additive_cost') and meth == 'evaluate_gradient':
+                    return Rat.sym('dcost')
+            # quantities that do not depend on the query point
+            if t[0] == 'attr' and t[1] in (('param', 'self'), ('name', 'self')):
+                return alg.const('self.' + t[2])
+            if t[0] == 'attr' and t[1][0] == 'attr' and t[1][1] in (('param', 'self'),
+                                                                    ('name', 'self')):
+                return alg.const('self.{}.{}'.format(t[1][2], t[2]))
+            if t[0] == 'call' and t[1][0] == 'attr' and t[1][1] in (('param', 'self'),
+                                                                    ('name', 'self')) and \
+                    not any(x in set(subterms(t)) for x in xs):
+                return alg.const('self.{}()'.format(t[1][2]))
+            return None
+        fe = _phi_alts(exe.term(rets_e[0].value))
+        fg = _phi_alts(exg.term(rets_g[0].value))
+        if len(fe) != len(fg):
+            ctx.check(False, gr, 'same case split in evaluate and evaluate_gradient', '',
+                      '{}: evaluate has {} case(s), its gradient {}'.format(c.name, len(fe),
+                                                                            len(fg)),
+                      fn=gr, node=rets_g[0])
+            continue
+        try:
+            pairs = []
+            F = [sd.convert(t, alg, leaf) for t in fe]
+            dF = [alg.D(f) for f in F]
+        except Unsupported as e:
+            ctx.assume('{}.evaluate is outside the differentiable fragment ({}); its gradient is '
+                       'not decided'.format(c.name, e))
+            continue
+        for i, t in enumerate(fg):
+            try:
+                G = sd.convert(t, alg, leaf)
+            except sd.Clipped as e:
+                ctx.check(False, gr, 'gradient = derivative', '', '{}.evaluate_gradient contains '
+                          'the clipping operator {} that evaluate does not have'.format(
+                              c.name, e), fn=gr, node=rets_g[0])
+                continue
+            except Unsupported as e:
+                ctx.undecided('{}.evaluate_gradient outside the differentiable fragment: {}'
+                              .format(c.name, e))
+            # cases are matched as sets: each gradient case equals the derivative of one
+            # evaluate case
+            ok = any(alg.same(G, d) for d in dF)
+            n_sym += 1
+            ctx.check(ok, gr, '{}: gradient = d/dx evaluate (case {})'.format(c.name, i),
+                      'chain rule over mean, var, prior',
+                      '{}.evaluate_gradient is not the derivative of {}.evaluate'.format(
+                          c.name, c.name), fn=gr, node=rets_g[0])
+        ctx.check(len(predict_calls) <= 1, gr, 'one prediction mode in function and gradient',
+                  'same predict(...) keywords', '{}: evaluate and evaluate_gradient call '
+                  'model.predict with different keywords {}'.format(c.name, sorted(
+                      predict_calls)), fn=gr, node=gr.node)
+    if n_sym < 3:
+        ctx.undecided('expected symbolic derivative checks for LCBSC and MaxVar, got {} '
+                      'cases'.format(n_sym))
